@@ -27,6 +27,12 @@ in-process (those prefix nodes are *recorded* only by the first unit that shares
 but *executed* by all; ``Result.executed`` counts real executions) and explores the
 subtree below its prefix sequentially, one fork per branch.
 
+Cost (measured on the verification VM, guppylang image of ~120 MB): ~65 ms per node (an
+empty forked child is ~12-18 ms; the rest are copy-on-write page faults of the child's
+work), and the total throughput does NOT grow with the number of concurrent forking
+processes (15 nodes/s with 1, 12 with 2, 9.5 with >= 4 -- page-table work is serialised
+by the hypervisor), so callers should pass ``workers=1`` there and budget ~13 nodes/s.
+
 No zombies: every forked pid is ``waitpid``-ed, on error paths the remaining children
 are killed and reaped.  Children leave with ``os._exit`` and never return into the
 caller's stack; they talk to their parent over a pipe (JSON, read to EOF).
